@@ -373,6 +373,31 @@ theorem update_edge_delete_edge_race_witness :
   have h1 := (hw.edge_listed 1 ⟨1, 2, true, 0, 9⟩ (by decide)).2.2.1
   exact absurd h1 (by decide)
 
+
+/-- `create_node` writes the node record FIRST and initialises the two adjacency lists afterwards.
+    A `create_edge(1, 3)` that sees node 3 between the two (the id can be guessed, or discovered by a
+    scan: `node:3` is already stored) appends edge 1 to `node:3:in`; `create_node` then overwrites
+    that list with the empty one: edge 1 exists, its target does not list it. -/
+theorem create_node_create_edge_race_witness :
+    ¬ QuiescentWF twoNodes [[.createNode 0 0], [.createEdge 1 3 true 0 0]] := by
+  intro h
+  have hw := h [0, 0, 1, 1, 1, 1, 1, 1, 1, 1, 0, 0] (by decide)
+  have h1 := (hw.edge_listed 1 ⟨1, 3, true, 0, 0⟩ (by decide)).2.2.2.1
+  exact absurd h1 (by decide)
+
+/-- `create_edge` writes the edge record FIRST and the list entries afterwards.  A `delete_edge(1)`
+    that finds the record in between (guessed id, or discovered by `all_edges`) cleans lists that do
+    not mention the edge yet and deletes the record; `create_edge` then adds the entries: both lists
+    mention an edge that does not exist. -/
+theorem delete_edge_of_edge_in_creation_race_witness :
+    ¬ QuiescentWF twoNodes [[e12], [.deleteEdge 1]] := by
+  intro h
+  have hw := h [0, 0, 0, 0, 1, 1, 1, 1, 1, 1, 1, 0, 0, 0, 0] (by decide)
+  obtain ⟨r, hr, _⟩ := hw.out_sound 1 1 (by decide)
+  have hn : edgeAt (runSched [[e12], [.deleteEdge 1]] [0, 0, 0, 0, 1, 1, 1, 1, 1, 1, 1, 0, 0, 0, 0] twoNodes).2.kv 1 = none := by
+    decide
+  rw [hn] at hr; exact absurd hr (by simp)
+
 /-! ### regression witnesses: the code before the list lock (`Op.progOld`, `…Old` programs) -/
 
 /-- Lost update on the adjacency list of a hub, code before 81b9c5b4: two `create_edge(1,2)` both
